@@ -160,6 +160,14 @@ theorem C13_written_name_round_trip (hint : Hint) (n : WName) (s : State) (h : W
       w.map lowerU8 = n.wire.map lowerU8 ∧ (s.mode ≠ .standard → w = n.wire) :=
   writeHintedName_round_trip hint n s h hn hh p hok
 
+/-- … and of a name written without a hint (the QNAME; every `CompressibleName` inside RDATA) -/
+theorem C13_unhinted_name_round_trip (n : WName) (s : State) (h : WInv s) (hn : n.WF) (p : Option Prior)
+    (hok : (writeUnhintedName n s).1 = .ok p) :
+    ∃ w k, Spec.specDecodeName ((writeUnhintedName n s).2.octets.extract 0 (writeUnhintedName n s).2.cursor)
+        s.cursor = some (w, n.len, k) ∧
+      w.map lowerU8 = n.wire.map lowerU8 ∧ (s.mode ≠ .standard → w = n.wire) :=
+  writeUnhintedName_round_trip n s h hn p hok
+
 /-- the same for the owner of any record (`add_rr`), on any message that agrees with the buffer below
     the cursor — and in particular for **the owner of the TSIG record `finish` appends**: on the
     finished message it decodes to the key name (compressed against earlier names or not) -/
